@@ -1,6 +1,12 @@
 package cipher
 
-import "time"
+import (
+	"crypto/sha256"
+	"encoding/binary"
+	"time"
+
+	"golang.org/x/crypto/pbkdf2"
+)
 
 // H8.1 key agreement: a sender at instant tc uses slot 1 of its three time
 // slots; a receiver at ts = tc + d tries its own three slots.  For |d| <= 60 s
@@ -20,21 +26,40 @@ func vSlotTimes(t time.Time) [3]int64 {
 	return [3]int64{r.Add(-KeyRefreshInterval).Unix(), r.Unix(), r.Add(KeyRefreshInterval).Unix()}
 }
 
-func vH_C08_key_agreement() {
+// vRefKey is the documented derivation for one slot instant: PBKDF2-SHA256 of
+// the (hashed) password with salt SHA-256(BE64(slot seconds)), 64 iterations,
+// 32 bytes.
+func vRefKey(pw []byte, slot int64) []byte {
+	var b [8]byte
+	binary.BigEndian.PutUint64(b[:], uint64(slot))
+	salt := sha256.Sum256(b[:])
+	return pbkdf2.Key(pw, salt[:], 64, 32, sha256.New)
+}
+
+// H8.1b: every key newBlockCipherList derives at instant t is the documented
+// function of (password, slot_i(t)).  Together with H8.1a (the slot sets of two
+// instants at most 60 s apart intersect in the sender's slot) this gives key
+// agreement by function congruence.
+func vH_C08_key_is_function_of_slot() {
 	pw := vNondetBytes("pw", 32)
-	tc := time.Unix(vNondetI64("tc.sec"), 0).Add(time.Duration(vNondetI64("tc.ns")))
-	d := vNondetI64("skew.ns")
-	vAssume(tc.Unix() >= 120 && tc.Unix() < 1<<35)
-	vAssume(d >= -60_000_000_000 && d <= 60_000_000_000)
-	ts := tc.Add(time.Duration(d))
-	cl, err1 := newBlockCipherList(pw, tc)
-	sl, err2 := newBlockCipherList(pw, ts)
-	vAssert(err1 == nil && err2 == nil && len(cl) == 3 && len(sl) == 3, "three ciphers derived")
-	vAssert(vKeysEqual(cl[1], sl[0]) || vKeysEqual(cl[1], sl[1]) || vKeysEqual(cl[1], sl[2]),
-		"|skew| <= 60 s: the sender's key is one of the receiver's three")
-	// and the other direction (server replies with its slot 1, client tries three)
-	vAssert(vKeysEqual(sl[1], cl[0]) || vKeysEqual(sl[1], cl[1]) || vKeysEqual(sl[1], cl[2]),
-		"|skew| <= 60 s: the receiver's key is one of the sender's three")
+	t := time.Unix(vNondetI64("t.sec"), 0).Add(time.Duration(vNondetI64("t.ns")))
+	vAssume(t.Unix() >= 600 && t.Unix() < 1<<35)
+	cl, err := newBlockCipherList(pw, t)
+	vAssert(err == nil && len(cl) == 3, "three ciphers derived")
+	slots := vSlotTimes(t)
+	for i := 0; i < 3; i++ {
+		ref := vRefKey(pw, slots[i])
+		same := true
+		for k := 0; k < DefaultKeyLen; k++ {
+			if cl[i].key[k] != ref[k] {
+				same = false
+			}
+		}
+		vAssert(same, "key i = PBKDF2(pw, SHA256(BE64(slot_i)), 64, 32)")
+		vAssert(cl[i].IsStateless(), "derived template ciphers are stateless")
+	}
+	// the entry BlockCipherFromPassword hands out is slot 1 (the nearest)
+	vAssert(cipherKeyEpoch(t) == slots[1], "epoch = middle slot")
 }
 
 // Slot arithmetic on the real saltFromTime inputs: which instants feed SHA-256.
@@ -55,6 +80,8 @@ func vH_C08_slots() {
 	}
 	vAssert(c[1]%120 == 0 && c[0] == c[1]-120 && c[2] == c[1]+120, "slots are consecutive multiples of 120 s")
 	vAssert(cipherKeyEpoch(tc) == c[1], "cipherKeyEpoch is the middle slot")
+	// documented: unixTime rounded to the nearest 2 minutes
+	vAssert(c[1] == (tc.Unix()+60)/120*120, "middle slot = unix time rounded to the nearest 120 s (halves up)")
 	// rounding to the nearest 2 minutes, halves up (documented: nearest)
 	diff := c[1] - tc.Unix()
 	vAssert(diff >= -60 && diff <= 60, "rounded slot within 60 s of the instant")
